@@ -92,6 +92,28 @@ def main(argv=None):
                 results.append(r)
                 if a.v:
                     print("  task %-60s %3d obl %6.1fs %s" % (r["task"], len(r["obligations"]), r["wall"], r["error"] or ""), flush=True)
+    # second chance for obligations that were neither proved nor refuted (solver timeouts under machine load must not flip a
+    # verdict): the tasks concerned are re-run a few at a time with a 5x budget
+    retry = [i for i, r in enumerate(results) if any(o["verdict"] == "undecided" for o in r["obligations"]) or
+             (r["error"] or "").startswith("TIMEOUT")]
+    if retry and not os.environ.get("VERIF_NO_RETRY"):
+        b2 = dict(budget)
+        b2.update(z3_ms=budget["z3_ms"] * 5, polyid_s=budget["polyid_s"] * 3, cvc5_s=budget["cvc5_s"] * 3, scale=budget.get("scale", 1) * 3)
+        name2job = {}
+        for j in jobs:
+            name2job[(j[0], packs[j[0]].tasks[j[1]].name)] = j
+        rjobs = [(name2job[(results[i]["pack"], results[i]["task"])][0], name2job[(results[i]["pack"], results[i]["task"])][1], prop, b2)
+                 for i in retry]
+        os.environ["VERIF_OBL_PAR"] = "2"
+        with multiprocessing.Pool(min(4, len(rjobs))) as pool:
+            redo = pool.map(_run, rjobs, chunksize=1)
+        for i, r2 in zip(retry, redo):
+            before = sum(1 for o in results[i]["obligations"] if o["verdict"] == "undecided")
+            after = sum(1 for o in r2["obligations"] if o["verdict"] == "undecided")
+            if a.v:
+                print("  retry %-55s undecided %d -> %d" % (r2["task"], before, after), flush=True)
+            r2["retried"] = True
+            results[i] = r2
     results.sort(key=lambda r: (r["pack"], r["task"]))
     return finish(prop, tier, seed, packs, results, t0, a)
 
